@@ -233,6 +233,16 @@ impl Transport {
         PacketBufferExternalAccess(&self.rx)
     }
 
+    /// Whether the single receive slot holds a message waiting for its owner (or is being read
+    /// right now) - read-only projection for the verification harness.
+    #[cfg(feature = "verif")]
+    pub fn verif_rx_occupied(&self) -> bool {
+        match self.rx.try_lock() {
+            Ok(packet) => !packet.buf.is_empty(),
+            Err(_) => true,
+        }
+    }
+
     /// Return a reference to the transport TX buffer.
     ///
     /// Useful when external code (like i.e. a user-provided mDNS implementation)
